@@ -13,7 +13,7 @@ def build(ctx):
     C.prove(ctx, ["Props/C06.v", "Props/C06Ops.v", "Props/C06Reader.v"],
             ["Oblig/C06Obl.v", "Model/TotalityFacts.v", "Model/PartialTable.v",
              "Oblig/C06OpsObl.v", "Model/TotalOpsFacts.v", "Model/TotalJsonFacts.v", "Model/OpSiteTable.v",
-             "Oblig/C06ReaderObl.v", "Model/ReaderShapeFacts.v", "Model/ReaderSiteTable.v"])
+             "Oblig/C06ReaderObl.v", "Model/ReaderShapeFacts.v", "Model/ReaderSiteTable.v", "Model/ReaderTextFacts.v"])
     ok, out = C.build_harness()
     ctx.log("go build", out)
     if not ok:
